@@ -243,7 +243,7 @@ def check_fold(ctx, rule):
     with ctx.obligation(rule, 'PubKeyNode.derive_path', None, fdp.where) as ob:
         summ = dict(X.DEFAULT_SUMMARIES)
         for q in ('bip32.PubKeyNode.ckd', 'bip32.PrvKeyNode.ckd'):
-            summ[q] = lambda ev_, fi, env, facts: (_ckd(env[fi.params[0]], env[fi.params[1]]), facts)
+            summ[q] = lambda ev_, fi, env, facts: (_ckd_call(env[fi.params[0]], env[fi.params[1]]), facts)
         e4 = Evaluator(p, 'ecdsa', summaries=summ)
         for cls in (PRV, PUB):
             node = S('node', cls=cls)
@@ -251,13 +251,35 @@ def check_fold(ctx, rule):
                 idx = [S('i%d' % j, type='int') for j in range(n_)]
                 v, f = e4.call_function('bip32.PubKeyNode.derive_path', [node, T.lst(idx)])
                 exp = node
-                for x in idx:
-                    exp = _ckd(exp, x)
+                exp = _fold(node, idx)
                 same_term(ob, v, exp, 'derive_path over %d indexes is the left fold of ckd' % n_, fdp.where)
+                if 1 <= n_ <= 3:
+                    # the same indexes handed over as a one-shot iterable (generator, map object, iter(...)): whoever
+                    # walks it first uses it up, so a function that makes two passes derives nothing on the second
+                    v2, _ = e4.call_function('bip32.PubKeyNode.derive_path', [node, e4.new_iter(idx)])
+                    same_term(ob, v2, exp, 'derive_path over a one-shot iterable of %d indexes (generator / map / iterator) is the '
+                              'same left fold of ckd as over the equal list' % n_, fdp.where)
 
 
 def _ckd(node, i):
     return S('CKD', cls=T.sym_meta(node, 'cls'), of=(node, i))
+
+
+def _ckd_call(node, i):
+    """what a call of ckd yields in the fold check: the child - except that a public node refuses a hardened index (so a
+    derive_path that refuses such a path up front is the same function)"""
+    if T.sym_meta(node, 'cls') == PUB:
+        return T.phi(T.lt(i, T.const(2 ** 31)), _ckd(node, i), T.raise_('RuntimeError'))
+    return _ckd(node, i)
+
+
+def _fold(node, idx):
+    if not idx:
+        return node
+    first = _ckd_call(node, idx[0])
+    if T.tag(first) == 'phi':
+        return T.phi(first[1], _fold(first[2], idx[1:]), first[3])
+    return _fold(first, idx[1:])
 
 
 def _strip_raise_deep(t):
